@@ -57,7 +57,7 @@ theorem arraySplit_1d (a : Arr α) (zero : α) (parts n : Nat) (hwf : a.WF) (hs 
     a.arraySplit zero parts (some 0) =
       .ok ((List.range parts).map (fun i => Arr.flat (blockOf a.elems (sectionSizes n parts) i))) ∧
     a.arraySplit zero parts none = a.arraySplit zero parts (some 0) :=
-  ⟨arraySplit_flat1d a zero parts n hwf hs hn hp, arraySplit_none a zero parts (by rw [Arr.ndim, hs]; simp)⟩
+  ⟨arraySplit_flat1d a zero parts n hwf hs hn hp, arraySplit_none a zero parts⟩
 
 /-- **1-D round trip**: chaining the pieces gives the element list back, and `concatenate(pieces, None)` is the array -/
 theorem concat_split_id_flat (a : Arr α) (zero : α) (parts n : Nat) (hwf : a.WF) (hs : a.shape = [n]) (hn : 0 < n)
@@ -113,14 +113,14 @@ theorem split_refuses (a : Arr α) (zero : α) (parts k : Nat) :
     constructor
     · exact ⟨_, by unfold Arr.arraySplit; rw [if_pos h0]⟩
     · by_cases hd : decide (k ≥ a.ndim) = true
-      · exact ⟨.AxisOutOfBounds, by unfold Arr.split; simp only [hd, if_true]⟩
-      · exact ⟨.ParameterError, by unfold Arr.split; simp only [hd, h0, Bool.false_eq_true, if_false, if_true]⟩
+      · exact ⟨.AxisOutOfBounds, by unfold Arr.split; simp only [Option.getD_some, hd, if_true]⟩
+      · exact ⟨.ParameterError, by unfold Arr.split; simp only [Option.getD_some, hd, h0, Bool.false_eq_true, if_false, if_true]⟩
   · intro hk
     have hd : decide (k ≥ a.ndim) = true := by simpa using hk
-    refine ⟨?_, ⟨.AxisOutOfBounds, by unfold Arr.split; simp only [hd, if_true]⟩, by unfold Arr.splitAxis; rw [if_pos hk]⟩
+    refine ⟨?_, ⟨.AxisOutOfBounds, by unfold Arr.split; simp only [Option.getD_some, hd, if_true]⟩, by unfold Arr.splitAxis; rw [if_pos hk]⟩
     by_cases h0 : parts = 0
     · exact ⟨.ParameterError, by unfold Arr.arraySplit; rw [if_pos h0]⟩
-    · exact ⟨.AxisOutOfBounds, by unfold Arr.arraySplit; rw [if_neg h0]; simp only [hd, if_true]⟩
+    · exact ⟨.AxisOutOfBounds, by unfold Arr.arraySplit; rw [if_neg h0]; simp only [Option.getD_some, hd, if_true]⟩
 
 /-- **splitting never panics** on a well-formed array without zero-length axis: every call is data or an error -/
 theorem split_no_panic (a : Arr α) (zero : α) (parts k : Nat) (hwf : a.WF) (hnz : 0 ∉ a.shape) :
@@ -137,25 +137,38 @@ theorem split_no_panic (a : Arr α) (zero : α) (parts k : Nat) (hwf : a.WF) (hn
       · simp
       · split <;> simp
 
-/-- **the default axis of splitting and stacking is axis 0** (for inputs of rank ≥ 1) -/
-theorem none_axis_is_zero (a : Arr α) (zero : α) (parts : Nat) (h : 1 ≤ a.ndim) (rest : List (Arr α))
-    (hr : ∀ b ∈ rest, 1 ≤ b.ndim) :
+/-- **the default axis of splitting and stacking is axis 0** — for splitting on every rank (a rank-0 receiver is refused
+with either spelling: the code validates the DEFAULTED axis, /repo 3685e2a), for stacking on inputs of rank ≥ 1 -/
+theorem none_axis_is_zero (a : Arr α) (zero : α) (parts : Nat) (rest : List (Arr α)) :
     a.arraySplit zero parts none = a.arraySplit zero parts (some 0) ∧
     a.split zero parts none = a.split zero parts (some 0) ∧
-    stack (a :: rest) zero none = stack (a :: rest) zero (some 0) := by
+    (1 ≤ a.ndim → (∀ b ∈ rest, 1 ≤ b.ndim) → stack (a :: rest) zero none = stack (a :: rest) zero (some 0)) := by
+  refine ⟨arraySplit_none a zero parts, split_none a zero parts, ?_⟩
+  intro h hr
   have hd : ¬ (0 ≥ a.ndim) := by omega
-  refine ⟨arraySplit_none a zero parts h, ?_, ?_⟩
-  · unfold Arr.split
-    simp only [hd, decide_false, Bool.false_eq_true, if_false, Option.getD_none, Option.getD_some,
-      arraySplit_none a zero parts h]
-  · have hany : ((a :: rest).any fun b => decide (0 ≥ b.ndim)) = false := by
-      simp only [List.any_eq_false, decide_eq_true_eq]
-      intro b hb
-      rcases List.mem_cons.1 hb with rfl | hb
-      · exact hd
-      · have := hr b hb; omega
-    unfold Arr.stack
-    simp only [hany, Bool.false_eq_true, if_false, Option.getD_none, Option.getD_some]
+  have hany : ((a :: rest).any fun b => decide (0 ≥ b.ndim)) = false := by
+    simp only [List.any_eq_false, decide_eq_true_eq]
+    intro b hb
+    rcases List.mem_cons.1 hb with rfl | hb
+    · exact hd
+    · have := hr b hb; omega
+  unfold Arr.stack
+  simp only [hany, Bool.false_eq_true, if_false, Option.getD_none, Option.getD_some]
+
+/-- **a rank-0 receiver is refused by `array_split` / `split` with the default axis** (`axis = None` stands for axis 0,
+which a rank-0 array does not have): `Err(AxisOutOfBounds)` — never a panic at `shape[0]`, never data; zero parts are
+refused first by `array_split` (`ParameterError`), the axis first by `split`.  No well-formedness needed. -/
+theorem split_rank0_refused (a : Arr α) (zero : α) (parts : Nat) (h0 : a.ndim = 0) :
+    a.arraySplit zero parts none = (if parts = 0 then .err .ParameterError else .err .AxisOutOfBounds) ∧
+    a.split zero parts none = .err .AxisOutOfBounds ∧
+    (∀ k, a.arraySplit zero parts (some k) = (if parts = 0 then .err .ParameterError else .err .AxisOutOfBounds)) ∧
+    (∀ k, a.split zero parts (some k) = .err .AxisOutOfBounds) := by
+  have hd : ∀ k : Nat, decide (k ≥ a.ndim) = true := by intro k; simp [h0]
+  refine ⟨?_, ?_, ?_, ?_⟩
+  · unfold Arr.arraySplit; simp only [Option.getD_none, hd, if_true]
+  · unfold Arr.split; simp only [Option.getD_none, hd, if_true]
+  · intro k; unfold Arr.arraySplit; simp only [Option.getD_some, hd, if_true]
+  · intro k; unfold Arr.split; simp only [Option.getD_some, hd, if_true]
 
 /-! ## 4. joining -/
 
@@ -370,10 +383,14 @@ theorem split_zero_axis (a : Arr α) (zero : α) (parts k : Nat) (hwf : a.WF) (h
   refine ⟨?_, ?_, ?_, ?_, ?_, ?_, ?_, ?_⟩
   · rw [arraySplit_empty a zero parts _ he]
     by_cases hk : a.ndim ≤ k <;> simp [hk]
-  · rw [arraySplit_empty a zero parts _ he]; simp
+  · rw [arraySplit_empty a zero parts _ he]
+    have h0 : ¬ a.ndim = 0 := by omega
+    simp [h0]
   · rw [split_empty a zero parts _ he]
     by_cases hk : a.ndim ≤ k <;> simp [hk]
-  · rw [split_empty a zero parts _ he]; simp
+  · rw [split_empty a zero parts _ he]
+    have h0 : ¬ a.ndim = 0 := by omega
+    simp [h0]
   · rw [splitAxis_empty a zero k he]
   · exact hsplit_empty a zero parts he hnd
   · rw [vsplit_empty a zero parts he]
@@ -398,7 +415,7 @@ theorem arraySplit_total (a : Arr α) (zero : α) (parts k : Nat) (hwf : a.WF) :
   · by_cases hk : a.ndim ≤ k
     · refine .inr (.inl ⟨by omega, hk, ?_⟩)
       have hd : decide (k ≥ a.ndim) = true := by simpa using hk
-      unfold Arr.arraySplit; rw [if_neg hp]; simp only [hd, if_true]
+      unfold Arr.arraySplit; rw [if_neg hp]; simp only [Option.getD_some, hd, if_true]
     · refine .inr (.inr ⟨by omega, by omega, ?_⟩)
       have h := concat_split_id_axis a zero parts k hwf (by omega) (by omega)
       cases hs : a.arraySplit zero parts (some k) with
@@ -408,13 +425,13 @@ theorem arraySplit_total (a : Arr α) (zero : α) (parts k : Nat) (hwf : a.WF) :
 
 /-- **splitting never panics on a well-formed array** — every rank ≥ 0, zero-length axes included, every axis (inside the
 rank or not), every part count (zero included): `array_split`, `split`, `split_axis`, `hsplit`, `vsplit`, `dsplit`
-answer with data or with an error.  (With `axis = None` the same holds for rank ≥ 1, where `None` is axis 0; a rank-0
-receiver with `None` is outside the theorem — see the example below.) -/
+answer with data or with an error, with `axis = None` as well (`None` is axis 0; a rank-0 receiver is then refused with
+`AxisOutOfBounds`, `split_rank0_refused`). -/
 theorem split_total (a : Arr α) (zero : α) (parts k : Nat) (hwf : a.WF) :
     a.arraySplit zero parts (some k) ≠ .panic ∧ a.split zero parts (some k) ≠ .panic ∧
     a.splitAxis zero k ≠ .panic ∧ a.hsplit zero parts ≠ .panic ∧ a.vsplit zero parts ≠ .panic ∧
     a.dsplit zero parts ≠ .panic ∧
-    (1 ≤ a.ndim → a.arraySplit zero parts none ≠ .panic ∧ a.split zero parts none ≠ .panic) := by
+    a.arraySplit zero parts none ≠ .panic ∧ a.split zero parts none ≠ .panic := by
   have hsp : ∀ k, a.arraySplit zero parts (some k) ≠ .panic ∧ a.split zero parts (some k) ≠ .panic := by
     intro k
     by_cases hz : 0 ∈ a.shape
@@ -428,7 +445,7 @@ theorem split_total (a : Arr α) (zero : α) (parts k : Nat) (hwf : a.WF) :
         · simp
         · split <;> simp
     · exact split_no_panic a zero parts k hwf hz
-  refine ⟨(hsp k).1, (hsp k).2, splitAxis_no_panic a zero k hwf, ?_, ?_, ?_, ?_⟩
+  refine ⟨(hsp k).1, (hsp k).2, splitAxis_no_panic a zero k hwf, ?_, ?_, ?_, ?_, ?_⟩
   · unfold Arr.hsplit
     split
     · simp
@@ -449,10 +466,8 @@ theorem split_total (a : Arr α) (zero : α) (parts k : Nat) (hwf : a.WF) :
     · split
       · simp
       · exact (hsp 2).2
-  · intro hnd
-    obtain ⟨g1, g2, _⟩ := none_axis_is_zero a zero parts hnd [] (by simp)
-    rw [g1, g2]
-    exact hsp 0
+  · rw [arraySplit_none]; exact (hsp 0).1
+  · rw [split_none]; exact (hsp 0).2
 
 /-- **the round trip for every well-formed array** (the statement of `concat_split_id_axis`, which carries no hypothesis
 on the shape, next to the total theorems), **and for `split`**: whenever `split` does not refuse — the array has a
@@ -511,7 +526,11 @@ example : ((⟨[], [2, 0, 3]⟩ : Arr Nat).split 0 5 (some 2) >>= fun ps => conc
     = .ok ⟨[], [2, 0, 3]⟩ := by decide
 example : stack [(⟨[1, 2], [2]⟩ : Arr Nat), ⟨[3, 4], [2]⟩] 0 (some 1) = .err .AxisOutOfBounds := by decide
 example := split_total (⟨[], [2, 0, 3]⟩ : Arr Nat) 0 4 1 (by decide)
-/-- the region left outside `split_total`: a rank-0 receiver with `axis = None` reaches `shape[0]` in the model -/
-example : (⟨[7], []⟩ : Arr Nat).WF ∧ (⟨[7], []⟩ : Arr Nat).arraySplit 0 1 none = .panic := by decide
+/-- a rank-0 receiver with `axis = None` (formerly outside `split_total`: it reached `shape[0]`) is refused -/
+example : (⟨[7], []⟩ : Arr Nat).WF ∧ (⟨[7], []⟩ : Arr Nat).arraySplit 0 1 none = .err .AxisOutOfBounds ∧
+    (⟨[7], []⟩ : Arr Nat).split 0 2 none = .err .AxisOutOfBounds ∧
+    (⟨[7], []⟩ : Arr Nat).arraySplit 0 0 none = .err .ParameterError := by decide
+example := split_rank0_refused (⟨[7], []⟩ : Arr Nat) 0 2 rfl
+example := split_total (⟨[7], []⟩ : Arr Nat) 0 2 0 (by decide)
 
 end ArrModel.C11
